@@ -15,7 +15,8 @@
 
    Threads:  Can(k)  client calling cancel() on the top future f_N
              COMP    the worker of the underlying work: set_running_or_notify_cancel(), then set_result()
-                     (cfgComp = "value") - or nothing ("never")
+                     (cfgComp = "value") or set_exception() ("exc": every layer copies the exception with its
+                     tolerant setter, same locking) - or nothing ("never")
              XCAN    somebody else cancelling f_cfgX directly (cfgX >= 90: nobody)
              ADD     client adding done-callback 2 to f_N (cfgAdd)
              FIN     ends the execution when everybody is done
@@ -66,8 +67,10 @@ Cancelled(s, i) == s.st[i] \in CancelledStates
 
 \* ------------------------------------------------------------------ micro-operations
 Replace(s, t, ops) == [s EXCEPT !.todo[t] = ops \o Tail(@)]
+\* (a finished future carries the base's outcome: a = 0 value / 1 exception)
 SetSt(s, i, v) == [s EXCEPT !.st[i] = v,
-                            !.pol = Append(@, Ev("Observed", "-", "-", 0, i, -1, IF v = "FINISHED" THEN 0 ELSE -1,
+                            !.pol = Append(@, Ev("Observed", "-", "-", 0, i, -1,
+                                                  IF v = "FINISHED" THEN (IF cfgComp = "exc" THEN 1 ELSE 0) ELSE -1,
                                                   IF v = "FINISHED" THEN 1 ELSE -1, -1, v, <<>>))]
 \* invoking the callbacks of f_i: iterate the LIVE list, clear it afterwards (library futures only)
 InvokeOps(i) == IF Bug = "callbacks_under_lock" /\ i >= 1 THEN <<<<"cbi", i, 1>>, <<"rel", i>>>>
@@ -171,7 +174,7 @@ InitCbs(re) == [i \in All |-> IF i = 0 THEN (IF re THEN <<<<"U", 9>>>> ELSE <<>>
 InitTodo(comp, x, add) ==
   [t \in Threads |->
      IF t[1] = "can" THEN <<<<"start">>, <<"ccall", N>>>>
-     ELSE IF t = COMP THEN (IF comp = "value" THEN <<<<"start">>, <<"run0">>, <<"yield">>, <<"fin0">>>> ELSE <<>>)
+     ELSE IF t = COMP THEN (IF comp \in {"value", "exc"} THEN <<<<"start">>, <<"run0">>, <<"yield">>, <<"fin0">>>> ELSE <<>>)
      ELSE IF t = XCAN THEN (IF x < 90 THEN <<<<"start">>, <<"cancel", x>>>> ELSE <<>>)
      ELSE (IF add THEN <<<<"start">>, <<"acall", N, <<"U", 2>>>>>> ELSE <<>>)]
 InitEvents(re) ==
